@@ -89,7 +89,7 @@ func devMain() {
 		ex := res.ex
 		fmt.Printf("== %s: paths=%d cut=%d asserts=%d violations=%d unknown=%d boundhits=%d steps=%d queries=%d solver=%v wall=%v\n",
 			en, ex.Paths, ex.Cut, ex.Asserts, len(ex.Viol), ex.Unknown, ex.BoundHits, ex.Steps+0*ex.ExactRechecks, res.queries, res.solverTime.Round(time.Millisecond), res.wall.Round(time.Millisecond))
-		fmt.Println("   reached:", ex.Reached, "exact rechecks:", ex.ExactRechecks, "unknown sites:", ex.UnknownSites)
+		fmt.Println("   reached:", ex.Reached, "simp-decided:", ex.SimpDecided, "interval-decided:", ex.AbsDecided, "exact rechecks:", ex.ExactRechecks, "unknown sites:", ex.UnknownSites)
 		if len(ex.Errors) > 0 {
 			fmt.Println("   errors:", ex.Errors)
 		}
@@ -98,6 +98,9 @@ func devMain() {
 		}
 		if len(ex.Panics) > 0 {
 			fmt.Println("   panics:", ex.Panics)
+		}
+		for k, v := range ex.Notes {
+			fmt.Printf("   note %5d %s\n", v, k)
 		}
 		type kv struct {
 			k string
